@@ -239,7 +239,7 @@ def World.opHeads (w : World) : Option (List Entry) :=
 accepts it, whether it was written for another log -/
 def World.replNet (w : World) (h : Nat) : Repl.Info :=
   match w.entry h with
-  | some e => { links := e.next ++ e.refs, valid := acceptable w.acl.canAppend e, foreign := e.logId != w.curDb + 1 }
+  | some e => { links := e.next ++ e.refs, valid := acceptable w.acl.canAppend e, foreign := e.logId != w.curDb + 1 || !e.hashOk }
   | none => { links := [] }
 
 def World.replOf (w : World) (k : Nat) : Repl.St :=
